@@ -3,7 +3,9 @@
 Part A: the nine eviction policies against the set view `tracked` (+ victim clauses).
 Part B: CachedStore against the CacheEvictionPolicy interface contract (capacity, tracked == keys,
         dirty subset, write-back safety, read/write races of the miss fill).
-Part C: SoftTTLCache (hard-TTL bound, LRU bookkeeping), Part D: MultiTierCache, write policies.
+Part C: SoftTTLCache (hard-TTL bound, LRU bookkeeping, background refresh handler), Part D: MultiTierCache
+        (incl. get/put over the tier generators), Part E: write policies, Part F: PageCache (capacity, dirty write-back;
+        needs the page-cache repair - source test PC_REPAIRED).
 See DESIGN.md section 3-C16.
 """
 from pyvc.spec import *
@@ -177,6 +179,33 @@ ghost(F_ST, "SoftTTLCache.get", "return self._cache[key].value", "_c16_served_ch
 ghost(F_CS, "CachedStore.put", "", "self.g_writes[key] = self.g_writes.get(key, 0) + 1", where="entry")
 ghost(F_CS, "CachedStore.delete", "", "self.g_writes[key] = self.g_writes.get(key, 0) + 1", where="entry")
 
+# ---- PageCache (part F).  The contracts need the repair fixes/C16_page-cache-capacity-after-disk-read.diff (+ the
+# flush snapshot of fixes/C16_page-cache-flush-snapshot.diff): on the unrepaired tree the cache exceeds its capacity
+# after a disk read, eviction crashes with KeyError and flush with RuntimeError (see the report); until the repairs
+# are applied only PageCache._touch is under contract.
+import os as _os  # noqa: E402
+from pyvc.ctx import REPO as _REPO  # noqa: E402
+F_PC = "happysimulator/components/infrastructure/page_cache.py"
+_PC_SRC = open(_os.path.join(_REPO, F_PC)).read()
+PC_REPAIRED = ("Make room only now" in _PC_SRC and "self._pages.pop(oldest_id, None)" in _PC_SRC) \
+    or bool(_os.environ.get("C16_PAGE_CACHE_FORCE"))      # (env switch: show the failing obligations on the unrepaired tree)
+PC_CONST = ["_capacity", "_page_size", "_readahead", "_disk_read_latency_s", "_disk_write_latency_s"]
+PC_KEEPS = [("PageCache", f) for f in PC_CONST] + [("Entity", "_clock"), ("Entity", "name")]
+PC_LOOP_INV = [
+    ("inv-capacity-positive", lambda L: L.self._capacity >= 1),
+    ("inv-never-above-capacity", lambda L: slen(L.self._pages) <= L.self._capacity),
+    ("inv-latencies-nonneg", lambda L: (L.self._disk_read_latency_s >= 0) & (L.self._disk_write_latency_s >= 0)),
+    ("inv-cached-page-objects-are-allocated", lambda L: _pc_pages_allocated(L.self)),
+    # the function's own steps since entry / the last resume (trivial right after the loop-head havoc; an obligation
+    # at loop entry and at the end of an iteration; cf. CachedStore.flush)
+    ("dirty-page-leaves-or-becomes-clean-only-with-a-write-back", lambda L: _pc_wb(L.since(L.self), L.self)),
+]
+if PC_REPAIRED:
+    # while len(self._pages) >= self._capacity: yield from self._evict_one()   (the body may yield: world)
+    loop(F_PC, "PageCache._ensure_space", 1, modifies="world", keeps=PC_KEEPS, inv=PC_LOOP_INV)
+    # for i in range(1, self._readahead + 1): ... yield disk latency ... insert if there is still room
+    loop(F_PC, "PageCache.read_page", 1, modifies="world", keeps=PC_KEEPS, types={"ahead_id": Int}, inv=PC_LOOP_INV)
+
 from specs.common import *  # noqa: E402,F401
 
 from happysimulator.components.datastore.eviction_policies import (  # noqa: E402
@@ -216,6 +245,20 @@ PROPERTY = {
         "for two tiers (delete: one tier - the two-tier obligations are undecided by z3 on the unrepaired tree); "
         "the promotion decision (_should_promote, enum-valued field) is an arbitrary boolean",
         "SoftTTLCache: the clock does not go backwards while get() is suspended (rely)",
+        "MultiTierCache.get/put: checked for two CachedStore tiers whose get/put run inlined; tier backing stores and "
+        "the multi-tier backing store are arbitrary (possibly the same) unbounded KVStores; lower tiers are only ever "
+        "filled from outside the multi-tier API (the code fills and writes tier 0 only)",
+        "MultiTierCache.get/put tasks run with 1/12 of the branch-feasibility budget and 1/8 of the obligation budget "
+        "(_cheap_feasibility): an undecided feasibility query keeps the path, an obligation that needs more is "
+        "UNDECIDED - neither can turn a failure into a pass",
+        "SoftTTLCache.handle_event: Event.context is a nested dict ({'metadata': {'key': k}}) that the heap typing does "
+        "not model; the handler is run on a native stand-in event carrying a symbolic key, i.e. the refresh event "
+        "delivered is assumed to carry the key that _maybe_start_refresh put into it",
+        "PageCache: _pages is an OrderedDict[int, _CachedPage] modelled by pyvc/omap.py; page objects are heap records "
+        "(page_id, dirty); two page ids may alias one page object (not excluded, not needed); the contracts of "
+        "_evict_one/_ensure_space/_load_page/read_page/write_page are active only on a tree that contains the repair "
+        "fixes/C16_page-cache-capacity-after-disk-read.diff (source test PC_REPAIRED); 'written back' is the model's "
+        "notion: the write latency was waited for and _dirty_writebacks counted in the step that drops/cleans the page",
     ],
 }
 
@@ -885,11 +928,54 @@ fn(SoftTTLCache, "put", args={"key": Str, "value": Any}, uses=KV_API + ST_STORE,
         & mk_bool(e_at(s.self._cache, s.key) == num(now_ns(s.self)))),
 ])
 
+# ---- background refresh: handle_event('_sttl_refresh').  Event.context is a nested dict ({'metadata': {'key': k}})
+# which the heap typing of specs/common.py does not model: the handler is run on a native stand-in event that
+# carries a symbolic key (assumption listed).
+class _RefreshEvent:
+    def __init__(self, key):
+        self.event_type = "_sttl_refresh"
+        self.key = key
+        self.context = {"metadata": {"key": key}}
+
+
+def _st_refresh_installs(s):
+    """what the refresh leaves under the key is the value the backing store holds NOW, stamped now: a value written
+    (put: store write, then cache) while the refresh was waiting is therefore never replaced by an older one"""
+    k = s.event.key
+    b = s.self._backing_store
+    pre = s.pre(s.self)
+    changed = has(s.self._cache, k) & Not(has(pre._cache, k) & mk_bool(mval(s.self._cache, k) == mval(pre._cache, k)))
+    return implies(changed, has(b._data, k) & mk_bool(e_val(s.self._cache, k) == mval(b._data, k))
+                   & mk_bool(e_at(s.self._cache, k) == num(now_ns(s.self))))
+
+
+fn(SoftTTLCache, "handle_event", args={"event": lambda: _RefreshEvent(Str.fresh("key"))}, uses=KV_API + ST_STORE,
+   focus=ST_FOCUS, requires=[ST_UNBOUNDED],
+   yields=Yields(at_yield=[
+       ("delay-nonnegative", lambda s, y: _delay(y) >= 0),
+       # the in-flight mark is what coalesces readers and suppresses duplicate refreshes: it stays while the fetch runs
+       ("refresh-marks-untouched-while-fetching", lambda s, y: unchanged(s, s.self, "_refreshing_keys", "_cache"))],
+       stable=[("Entity", "_clock")]),
+   ensures=[
+    ("refresh-mark-cleared-when-the-refresh-ends", lambda s: Not(has(s.self._refreshing_keys, s.event.key))),
+    ("only-this-key-s-mark-is-cleared", lambda s: mk_bool(
+        sdom(s.self._refreshing_keys) == without(sdom(s.pre(s.self)._refreshing_keys), s.event.key))),
+    ("installed-value-is-the-current-backing-value-stamped-now", _st_refresh_installs),
+    ("fetched-value-is-installed", lambda s: implies(has(s.self._backing_store._data, s.event.key),
+        has(s.self._cache, s.event.key)
+        & mk_bool(e_val(s.self._cache, s.event.key) == mval(s.self._backing_store._data, s.event.key))
+        & mk_bool(e_at(s.self._cache, s.event.key) == num(now_ns(s.self))))),
+    ("vanished-key-leaves-the-cache-untouched", lambda s: implies(Not(has(s.self._backing_store._data, s.event.key)),
+        mk_bool(s.self._cache.term == s.pre(s.self)._cache.term))),
+    ("other-entries-kept-or-evicted", lambda s: forall(Str, lambda j: implies(
+        mk_bool(kt(j) != kt(s.event.key)) & has(s.self._cache, j),
+        has(s.pre(s.self)._cache, j) & mk_bool(mval(s.self._cache, j) == mval(s.pre(s.self)._cache, j))))),
+])
+
 # ============================================================================ D. MultiTierCache (synchronous part)
 # Tiers are CachedStore instances (the only tier class the repo ships); the contracts below are checked for
 # a two-tier cache (the tier list is concrete, everything else symbolic).  The tier operations are used through
-# the CachedStore contracts of part B.  get/put/delete (generators over tier generators) are not under contract:
-# see the report.
+# the CachedStore contracts of part B; get/put (generators over the tier generators) follow after delete.
 from happysimulator.components.datastore.multi_tier_cache import MultiTierCache  # noqa: E402
 
 cls(MultiTierCache, fields={"_tiers": Seq(Ref(CachedStore)), "_backing_store": Ref(KVStore), "_promotion_policy": Any,
@@ -1137,3 +1223,126 @@ fn(WriteAround, "on_write", args={"key": Str, "value": Any}, ensures=[
         seq_term(s.self._invalidated_keys) == z3.Concat(seq_term(s.old(s.self)._invalidated_keys), z3.Unit(kt(s.key)))))])
 # WriteAround.get_keys_to_invalidate (`keys = self._l; self._l = []; return keys`) is not under contract: the
 # engine binds a container read from a field to the field's location, so rebinding the field changes `keys`.
+
+# ============================================================================ F. PageCache
+# _pages: OrderedDict[int, _CachedPage] (LRU first), _CachedPage a mutable record (page_id, dirty).
+#   capacity:   len(_pages) <= _capacity at every yield and at exit (class invariant);
+#   write-back: a dirty page leaves the cache (or becomes clean) only in an atomic step that also counts a write-back
+#               (two-state class guarantee; the write-back latency has been waited for before that step).
+from happysimulator.components.infrastructure.page_cache import PageCache, _CachedPage  # noqa: E402
+from pyvc.heap import ObjProxy as _ObjProxy  # noqa: E402
+
+cls(_CachedPage, fields={"page_id": Int, "dirty": Bool})
+PMAP = OMap(Int, Ref(_CachedPage))
+
+
+def it_(p):
+    return p.t if hasattr(p, "t") else z3.IntVal(p)
+
+
+def pg_has(view, p):
+    return mk_bool(z3.Select(odom(view._pages), it_(p)))
+
+
+def pg_dirty(view, p):
+    """dirty flag, in the state of `view`, of the page object cached under id p (meaningful where pg_has)"""
+    pages = view._pages
+    ref = z3.Select(pages._ty.dt.val(pages.term), it_(p))
+    return _ObjProxy(ref, _CachedPage, object.__getattribute__(view, "_frozen")).dirty
+
+
+cls(PageCache, fields={"_capacity": Int, "_page_size": Int, "_readahead": Int, "_disk_read_latency_s": Real,
+                       "_disk_write_latency_s": Real, "_pages": PMAP, "_hits": Int, "_misses": Int,
+                       "_evictions": Int, "_dirty_writebacks": Int, "_readaheads": Int},
+    const=PC_CONST,
+    inv=[("capacity-positive", lambda o: o._capacity >= 1),
+         ("never-above-capacity", lambda o: slen(o._pages) <= o._capacity),
+         ("latencies-nonneg", lambda o: (o._disk_read_latency_s >= 0) & (o._disk_write_latency_s >= 0)),
+         ("cached-page-objects-are-allocated", lambda o: _pc_pages_allocated(o))])
+
+
+def _pc_pages_allocated(o):
+    """heap typing of the values of _pages (the engine assumes it for a reference when the CODE reads it; the
+    clauses below read page objects through raw terms): every cached page object exists, i.e. is distinct from
+    any object allocated later.  Checked (not only assumed) wherever the invariants are obligations."""
+    a = _pctx.cur().heap.alloc
+    pages = o._pages
+    dom, val = odom(pages), pages._ty.dt.val(pages.term)
+    return forall(Int, lambda p: implies(mk_bool(z3.Select(dom, it_(p))), mk_bool(
+        z3.And(z3.Select(val, it_(p)) >= 1, z3.Select(val, it_(p)) <= a))))
+
+
+def _pc_wb(old, new):
+    """write-back safety over one uninterrupted stretch of a function's own steps (old = state at the latest of
+    entry / resume / loop head): a page that was dirty and is no longer cached-and-dirty was written back in that
+    stretch (the write-back latency is waited for before the stretch begins), and the counter never goes back"""
+    return (new._dirty_writebacks >= old._dirty_writebacks) & forall(Int, lambda p: implies(
+        pg_has(old, p) & pg_dirty(old, p) & Not(pg_has(new, p) & pg_dirty(new, p)),
+        new._dirty_writebacks > old._dirty_writebacks))
+
+
+PC_WB = ("dirty-page-leaves-or-becomes-clean-only-with-a-write-back", lambda s: _pc_wb(s.since(s.self), s.self))
+
+fn(PageCache, "_touch", args={"page_id": Int}, requires=[("page-is-cached", lambda s: pg_has(s.self, s.page_id))], ensures=[
+    ("cached-set-unchanged", lambda s: mk_bool(odom(s.self._pages) == odom(s.old(s.self)._pages))
+        & (slen(s.self._pages) == slen(s.old(s.self)._pages))),
+    ("touched-page-becomes-most-recent", lambda s: forall(Int, lambda j: implies(
+        pg_has(s.self, j) & mk_bool(it_(j) != it_(s.page_id)),
+        mk_bool(z3.Select(s.self._pages._ty.dt.pos(s.self._pages.term), it_(j))
+                < z3.Select(s.self._pages._ty.dt.pos(s.self._pages.term), it_(s.page_id))))))])
+
+def _bounded_page_cache(seed, tier):
+    """bounded stand-in (PageCache.flush iterates the OrderedDict's values across yields - not reachable by the
+    loop contracts of pyvc/omap.py): random concurrent read_page / write_page / flush schedules in the real
+    Simulation; no exception, pages_cached <= capacity at every completion and sampler tick, a final flush leaves
+    no dirty page"""
+    return run_native_script("triage/c16_page_cache_bounded.py", 2000 if tier == "quick" else 40000, seed)
+
+
+# active only with both page-cache repairs (on the unrepaired tree it reports the three findings of the report)
+if PC_REPAIRED and "list(self._pages.values())" in _PC_SRC:
+    PROPERTY["bounded"].append({"name": "page-cache-concurrent-schedules",
+                                "bound": "2000 (quick) / 40000 (thorough) seeded random models: capacity 1-3, readahead 0-2, "
+                                         "2-4 processes x 1-4 operations over 4 page ids",
+                                "fn": _bounded_page_cache})
+
+PC_YIELDS = dict(at_yield=[("delay-nonnegative", lambda s, y: y >= 0),
+                           (PC_WB[0], lambda s, y: PC_WB[1](s))], stable=[("Entity", "_clock")])
+
+
+def _pc_only_removes(s):
+    """the final atomic segment only removes pages (never swaps a page object)"""
+    pre = s.pre(s.self)
+    return forall(Int, lambda p: implies(pg_has(s.self, p), pg_has(pre, p) & mk_bool(
+        z3.Select(s.self._pages._ty.dt.val(s.self._pages.term), it_(p))
+        == z3.Select(pre._pages._ty.dt.val(pre._pages.term), it_(p)))))
+
+
+if PC_REPAIRED:
+    fn(PageCache, "_evict_one", yields=Yields(**PC_YIELDS), ensures=[
+        ("only-removes", _pc_only_removes),
+        ("at-most-one-page-evicted", lambda s: (slen(s.self._pages) <= slen(s.pre(s.self)._pages))
+            & (slen(s.self._pages) >= slen(s.pre(s.self)._pages) - 1)),
+        ("evictions-counted", lambda s: s.self._evictions - s.pre(s.self)._evictions
+            == slen(s.pre(s.self)._pages) - slen(s.self._pages)), PC_WB])
+
+    fn(PageCache, "_ensure_space", yields=Yields(**PC_YIELDS), ensures=[
+        ("room-for-one-page", lambda s: slen(s.self._pages) < s.self._capacity), PC_WB])
+
+    # (`since` = state at the latest of entry / resume / exit of the make-room loop)
+    fn(PageCache, "_load_page", args={"page_id": Int}, yields=Yields(**PC_YIELDS), ensures=[
+        ("page-is-cached", lambda s: pg_has(s.self, s.page_id)),
+        ("a-page-already-cached-is-not-replaced", lambda s: implies(pg_has(s.since(s.self), s.page_id), mk_bool(
+            z3.Select(s.self._pages._ty.dt.val(s.self._pages.term), it_(s.page_id))
+            == z3.Select(s.since(s.self)._pages._ty.dt.val(s.since(s.self)._pages.term), it_(s.page_id))))),
+        ("one-page-added-at-most", lambda s: slen(s.self._pages) <= slen(s.since(s.self)._pages) + 1), PC_WB])
+
+    fn(PageCache, "read_page", args={"page_id": Int}, requires=[("readahead-nonneg", lambda s: s.self._readahead >= 0)],
+       yields=Yields(**PC_YIELDS), ensures=[
+        ("hit-keeps-the-cached-set", lambda s: implies(pg_has(s.old(s.self), s.page_id),
+            mk_bool(odom(s.self._pages) == odom(s.old(s.self)._pages)) & (s.self._hits == s.old(s.self)._hits + 1))),
+        PC_WB])
+
+    fn(PageCache, "write_page", args={"page_id": Int}, yields=Yields(**PC_YIELDS), ensures=[
+        ("written-page-is-cached-dirty", lambda s: pg_has(s.self, s.page_id) & pg_dirty(s.self, s.page_id)),
+        ("one-page-added-at-most", lambda s: slen(s.self._pages) <= slen(s.since(s.self)._pages) + 1), PC_WB])
